@@ -140,6 +140,8 @@ def run(ctx):
     from . import c14
     from .common import RemapCtx
     c14.d2_release(RemapCtx(ctx, {'C14-D2': 'C03-D3'}))
+    # what the item source is told about todo / error rows comes from the table, not from the hook wrapper's own counters
+    c14.d4_wrapper(RemapCtx(ctx, {'C14-D4': 'C03-D3'}))
 
     # ------------------------------------------------------------------ D4
     it = repo.func('wpull.application.tasks.database:InputURLTask.process')
